@@ -3,6 +3,8 @@ from core import (enum_paths, path_atoms, path_calls, path_return, ret_variant, 
                   fmt, variant_edges, mentions, is_call_to, subexprs, root_calls, unclone)
 from statsmodel import StatsModel
 
+from sym import ipaths
+
 LEVEL = "proof"
 EXPLANATION = ("Counting rules on all MIR paths: a read API records exactly one access iff it returns a value; the "
                "buffer pushes exactly once per access and clears only after handing a clone of the same vector "
@@ -154,26 +156,31 @@ def run(ctx):
     added = SM.bumps_of("AccessAdded")
     dropped = SM.bumps_of("AccessDropped")
     ctx.check(bool(added) and bool(dropped), "R15.4", "access-counters", "AccessAdded / AccessDropped counter functions exist", detail="%s %s" % (sorted(added), sorted(dropped)))
-    acc = [f for n, f in F.fns.items() if f.rec.get("impl_trait", "").endswith("BufferConsumer") and any(t.get("rpath") in added | dropped for b, t in f.calls())]
+    stat_stop = lambda n: n in added or n in dropped
+    acc = []
+    for n, f in F.fns.items():
+        if f.rec.get("impl_trait", "").endswith("BufferConsumer") and f.kind != "Closure":
+            ps = ipaths(F, f, stop=stat_stop)
+            if any(p.calls(added | dropped) for p in ps):
+                acc.append((f, ps))
     ctx.floor("R15.4", "consumer hand-over functions with accounting", len(acc), 1)
-    for f in acc:
+    for f, paths in acc:
         ctx.touch(f)
-        paths = enum_paths(f, limit=50000)
         ctx.analysed["paths"] += len(paths)
         bad = []
         nontrivial = 0
         for p in paths:
-            atoms = path_atoms(f, p)
-            calls = path_calls(f, p)
-            A = [(b, t) for b, t in calls if t.get("rpath") in added]
-            D = [(b, t) for b, t in calls if t.get("rpath") in dropped]
-            sends = [(b, t) for b, t in calls if t["callee"].endswith("SelectedOperation::<'_>::send") or "Sender::<T>::try_send" in t["callee"]]
-            full = [a for a in atoms if a[0] == "enum" and a[1] == ("param", 2)]
-            is_full = bool(full) and full[0][2] == ("Full",)
-            pos = [a for a in atoms if a[0] == "bool" and a[1][0] == "binop" and a[1][1] == "Lt" and a[1][2] == ("const", 0, "usize")]
+            A = p.calls(added)
+            D = p.calls(dropped)
+            sends = [e for e in p.events if e.generic.endswith("SelectedOperation::<'_>::send") or "Sender::<T>::try_send" in e.generic]
+            full = p.variant_of(("param", 2))
+            is_full = full == ("Full",)
+            is_len = lambda x: mentions(x, lambda s_: is_call_to(s_, "Vec::<T, A>::len", "Vec::<T, A>::is_empty"))
+            pos = [a for a in p.atoms if a[0] == "bool" and a[1][0] == "binop" and a[1][1] == "Lt" and a[1][2] == ("const", 0, "usize") and is_len(a[1][3])]
+            pos += [(a[0], a[1], not a[2], a[3]) for a in p.atoms if a[0] == "bool" and a[1][0] == "binop" and a[1][1] == "Eq" and ("const", 0, "usize") in (a[1][2], a[1][3]) and is_len(a[1])]
+            pos += [(a[0], a[1], not a[2], a[3]) for a in p.atoms if a[0] == "bool" and is_call_to(a[1], "Vec::<T, A>::is_empty")]
             nonempty = not any(not a[2] for a in pos)      # no branch on this path established size == 0
-            contradictory = any(a[2] for a in pos) and any(not a[2] for a in pos)
-            if contradictory:
+            if any(a[2] for a in pos) and any(not a[2] for a in pos):
                 continue        # size > 0 both true and false on one path: infeasible
             if len(sends) > 1:
                 bad.append(("event sent twice", p))
@@ -183,30 +190,21 @@ def run(ctx):
                     bad.append(("full buffer accounted %d times" % (len(A) + len(D)), p))
                     continue
                 ev = (A or D)[0]
-                amt = f.op_origin(ev[1]["args"][1])
-                if not mentions(amt, lambda s: is_call_to(s, "Vec::<T, A>::len")):
-                    bad.append(("accounted amount is not the buffer length", p))
-                if A:
-                    if len(sends) != 1:
-                        bad.append(("counted as added without a send", p))
-                    else:
-                        sres = f.origin_call(sends[0][0], sends[0][1])
-                        okd = [a for a in atoms if a[0] == "enum" and strip_site(a[1]) == strip_site(sres) and a[2] == ("Ok",)]
-                        if not okd:
-                            bad.append(("counted as added although the send did not succeed", p))
-                if D and sends:
-                    sres = f.origin_call(sends[0][0], sends[0][1])
-                    okd = [a for a in atoms if a[0] == "enum" and strip_site(a[1]) == strip_site(sres) and a[2] == ("Ok",)]
-                    if okd:
-                        bad.append(("counted as dropped although the send succeeded", p))
-            else:
-                if not pos and (A or D) and is_full:
-                    pass
-                elif (A or D) and not nonempty:
-                    bad.append(("empty/non-Full event accounted", p))
+                amt = ev.args[1]
+                if not mentions(amt, lambda s: is_call_to(s, "Vec::<T, A>::len") and mentions(s, lambda z: z == ("param", 2))):
+                    bad.append(("accounted amount is not the length of the buffer handed over", p))
+                sent_ok = bool(sends) and p.variant_of(sends[0].res) == ("Ok",)
+                if A and not sent_ok:
+                    bad.append(("counted as added although no send succeeded", p))
+                if D and sent_ok:
+                    bad.append(("counted as dropped although the send succeeded", p))
+            elif (A or D) and not nonempty:
+                bad.append(("empty/non-Full event accounted", p))
+            elif (A or D) and not is_full:
+                bad.append(("a non-Full event is accounted", p))
         ctx.check(not bad and nontrivial >= 2, "R15.4", "%s|exactly-one-of-added-dropped" % f.name,
-                  "every non-empty Full event is accounted exactly once: added iff the non-blocking send succeeded, dropped otherwise (%d paths, %d with a non-empty buffer)" % (len(paths), nontrivial),
-                  f.where(), "; ".join("%s via %s" % (w, q[:12]) for w, q in bad[:3]))
+                  "every non-empty Full event is accounted exactly once: added iff the non-blocking send succeeded, dropped otherwise (%d symbolic paths, %d with a non-empty buffer; helpers inlined)" % (len(paths), nontrivial),
+                  f.where(), "; ".join("%s %s" % (w, q.show()) for w, q in bad[:3]))
         e = {"block": set(), "nonblock": set()}
         for bb, t in f.calls():
             se = site_effects(F, f, bb)
